@@ -23,6 +23,8 @@ def network(addr, plen):
         n &= ~((1 << (L - plen)) - 1)
     return n.to_bytes(len(addr), 'big')
 
+LEADING_ZERO = [False]
+
 def entry_text(fam, addr, plen, port=None):
     a = str(ipaddress.ip_address(addr))
     if fam == 6:
@@ -30,7 +32,8 @@ def entry_text(fam, addr, plen, port=None):
     else:
         t = a
     if plen != 255:
-        t += '/%d' % plen
+        # the length is a decimal number however many leading zeros it is written with
+        t += ('/0%d' if LEADING_ZERO[0] else '/%d') % plen
         if port:
             t = None
     elif port:
@@ -38,6 +41,7 @@ def entry_text(fam, addr, plen, port=None):
     return t
 
 def make_case(rng, cid, nblocks, thorough_pair=None):
+    LEADING_ZERO[0] = rng.random() < 0.3
     conf, cfg, entries = [], ['cfg nopipe'], []
     for which, kw, base in (('cl', 'client', 0), ('srv', 'server', 0)):
         for i in range(nblocks):
